@@ -112,8 +112,13 @@ CasesOf(p, k) ==
            val |-> t[3], alt |-> a.alt, ai |-> a.ai, as |-> a.as] :
               a \in AltsOf(p, k, IF p = "vc" THEN t[2] ELSE (t[2] % N) + 1, t[3])} :
          t \in VersionsOf(k) \X (1..N) \X (1..V)}
-Cases == UNION {CasesOf(p, k) : <<p, k>> \in {<<p, k>> \in {"vc", "peer"} \X Kinds : k \in KindsOn(p)}}
+\* (an operator with a parameter, so that TLC does not evaluate the whole set eagerly at start-up of every run)
+CasesOn(paths) == UNION {CasesOf(pk[1], pk[2]) : pk \in {pk \in paths \X Kinds : pk[2] \in KindsOn(pk[1])}}
+Paths == {"vc", "peer"}
 
+\* As coded: go-eth2-client's VersionedSignedProposal.Slot() answers "unsupported version" for phase0 and altair
+\* blocks, so both handlers refuse them whatever the signature.  The statement is silent about such objects.
+Supported(k, ver) == ~(k = "proposal" /\ ver \in {"phase0", "altair"})
 Own(c) == IF c.path = "vc" THEN c.node ELSE c.sender
 Base(v, own, k) == [val |-> v, idx |-> own, sk |-> "bls", by |-> <<v, own>>, over |-> "orig", cur |-> "orig",
                     sdom |-> Dom[k], ddom |-> Dom[k], sfork |-> "cur", inner |-> TRUE]
@@ -143,9 +148,10 @@ Msg(c) == [path |-> c.path, kind |-> c.kind, node |-> IF c.path = "vc" THEN c.no
                          [] OTHER -> <<Alter(Base(c.val, Own(c), c.kind), c)>>,
            dt |-> IF c.alt = "dutyType" THEN c.ai ELSE DutyOf[c.kind],
            window |-> CASE c.alt = "future" -> "beyond" [] c.alt = "futureEdge" -> "edge" [] OTHER -> "in",
-           payload |-> c.alt # "payload"]
+           payload |-> c.alt # "payload",
+           supported |-> Supported(c.kind, c.ver)]
 NoMsg == [path |-> "-", kind |-> "-", node |-> 0, sender |-> 0, alt |-> "-", entries |-> <<>>, dt |-> 0,
-          window |-> "in", payload |-> TRUE]
+          window |-> "in", payload |-> TRUE, supported |-> TRUE]
 
 (* ------------------------------------------ the property, as stated ---------------------------------------- *)
 Valid(e) == /\ e.sk = "bls" /\ e.val \in 1..V /\ e.idx \in 1..N
@@ -158,7 +164,7 @@ MayEnter(m, k) ==
                         /\ \A j \in DOMAIN m.entries : Valid(m.entries[j])     \* nothing of a message with a bad entry
   /\ (m.path = "vc" /\ m.kind \in {"proposal", "blinded"}) => m.payload
 \* sanity of the whole arrangement: an unaltered submission does enter (except where the endpoint ignores its input)
-MustEnter(m) == m.alt \in {"none", "futureEdge"} /\ ~(m.path = "vc" /\ m.kind = "registration")
+MustEnter(m) == m.alt \in {"none", "futureEdge"} /\ ~(m.path = "vc" /\ m.kind = "registration") /\ m.supported
 
 (* ------------------------------------------ the handlers, as coded ----------------------------------------- *)
 Lock == [v \in 1..V |-> [i \in 1..N |-> <<v, i>>]]
@@ -185,12 +191,14 @@ VCEntryOK(m, e) ==
   /\ \/ DropVerify = m.kind
      \/ /\ e.val \in DOMAIN Lock                              \* getVerifyShareFunc: "unknown public key"
         /\ VerifyEth2(Lock[e.val][m.node], e)
-AsCoded(m) == IF m.path = "peer" THEN PeerAdmits(m)
-              ELSE m.kind # "registration" /\ \A k \in DOMAIN m.entries : VCEntryOK(m, m.entries[k])
+Checks(m) == IF m.path = "peer" THEN PeerAdmits(m)
+             ELSE m.kind # "registration" /\ \A k \in DOMAIN m.entries : VCEntryOK(m, m.entries[k])
+AsCoded(m) == m.supported /\ Checks(m)
 \* latitude where the statement is silent
 Loose(m, e) == VCEntryOK(m, IF InnerProofPolicy = "either" THEN [e EXCEPT !.inner = TRUE] ELSE e)
 Choices(m, k) ==
   IF AsCoded(m) THEN {TRUE}
+  ELSE IF ~m.supported THEN (IF Checks(m) THEN BOOLEAN ELSE {FALSE})
   ELSE IF /\ m.path = "vc" /\ m.kind # "registration" /\ Loose(m, m.entries[k])
           /\ (VCBatchPolicy = "either" \/ \A j \in DOMAIN m.entries : Loose(m, m.entries[j]))
        THEN BOOLEAN
@@ -207,7 +215,7 @@ Deliver(k) == /\ phase = "recv" /\ k \in DOMAIN msg.entries /\ k \notin delivere
 Return == /\ phase = "recv"
           /\ \A k \in DOMAIN msg.entries : (k \in delivered) \in Choices(msg, k)
           /\ phase' = "done" /\ UNCHANGED <<msg, delivered>>
-Next == (\E c \in Cases : Submit(c)) \/ (\E k \in 1..2 : Deliver(k)) \/ Return
+Next == (phase = "idle" /\ \E c \in CasesOn(Paths) : Submit(c)) \/ (\E k \in 1..2 : Deliver(k)) \/ Return
 Spec == Init /\ [][Next]_vars
 
 TypeOK == phase \in {"idle", "recv", "done"} /\ delivered \subseteq DOMAIN msg.entries
